@@ -46,8 +46,8 @@ func c08gen(rng *core.Rng, big bool) c08case {
 	k := c08case{}
 	counts := []int{0, 1, 2, 3, 3, 5, 17, 255, 256, 1000}
 	n := core.Pick(rng, counts)
-	if big && rng.Intn(40) == 0 {
-		n = 65535
+	if rng.Intn(60) == 0 || (big && rng.Intn(40) == 0) {
+		n = core.Pick(rng, []int{32767, 32768, 40000, 65535})
 	}
 	typed := n <= 17 && rng.Bool()
 	shape := rng.Intn(3) // 0 none, 1 one, 2 n
@@ -327,6 +327,14 @@ func (ch c08) runCase(c *core.Ctx, env *hs.Env, k c08case, idx int) {
 		return
 	}
 	var in []byte
+	reparse := len(k.PRaw) <= 17
+	if reparse {
+		// the name is first defined by another statement (other declared types) and described;
+		// the second Parse replaces it: Describe must announce the new declaration
+		sess.Progs["q0"] = &hs.Prog{Stmts: []*hs.Stmt{{ID: "s0", Params: []oid.Oid{oid.T_int8, oid.T_bool, oid.T_text}, Ops: []hs.Op{{K: "complete", Tag: "OK"}}}}}
+		in = append(in, pg.Parse("st", "q0", nil)...)
+		in = append(in, pg.Describe('S', "st")...)
+	}
 	in = append(in, pg.Parse("st", "q", nil)...)
 	in = append(in, pg.Describe('S', "st")...)
 	in = append(in, pg.Bind("po", "st", k.PFmts, k.PRaw, k.RFmts)...)
@@ -347,6 +355,13 @@ func (ch c08) runCase(c *core.Ctx, env *hs.Env, k c08case, idx int) {
 	if closed {
 		viol("dropped", "connection dropped on Bind", "reply "+replyKinds(out))
 		return
+	}
+	if reparse {
+		if len(msgs) < 3 || pg.Types(msgs[:3]) != "1tn" || len(msgs[1].OIDs) != 3 {
+			viol("transcript", "first definition of the statement not described", trim(replyKinds(out), 200))
+			return
+		}
+		msgs = msgs[3:]
 	}
 	want := "1t"
 	if len(k.ColOIDs) > 0 {
